@@ -18,12 +18,12 @@ P = {
  "C10": ("proof", "Lean theorems for all shapes of rank 1-3, tags, depths: LR factor formulas for Adam/SGD(None)/SGD(to_output_scale), rank ≥ 4 error. Correspondence: near-exhaustive grid of tag × rank × dims × depth × lr kind × group kind × optimizer, both readout settings.", "5/C10"),
  "C11": ("proof", "Lean theorems over a list/heap model of scaled_parameters: params preserved one per group in order, other keys carried, caller's cells unchanged, fresh lr cells for scaled groups, lr'·wd' = wd, zero-gradient SGD/AdamW step multiplies by (1−wd). Correspondence on random group lists with real optimizers.", "5/C11"),
  "C12": ("proof", "Lean theorem connecting the three models (forward scale, tag→LR rule, first Adam step): every output coordinate moves by exactly eta/sqrt(depth) for all fan_in, fan_out, kernel. Correspondence with real layers and the library's Adam/AdamW in float64.", "5/C12"),
- "C13": ("proof", "Lean bit-level model of FPFormat.quantise on float32 patterns with exact rationals; theorems: representable, neighbour, near-nearest with the stated slack, saturating, idempotent, monotone, odd, fixes representables. Correspondence: dense structured inputs for all 168 formats (quick), all 2^32 patterns for E4M3/E5M2 (thorough).", "5/C13"),
- "C14": ("proof", "Same bit-level model with the stochastic offset; theorems count the draws that round up exactly (sr_count), hence exact/half-ulp probabilities. Correspondence with torch.randint substituted and all draws enumerated.", "5/C14"),
+ "C13": ("proof", "Lean bit-level model of FPFormat.quantise on float32 patterns with exact rationals. Theorems for the definition the driver executes, covering every finite input of every format: closed forms (normal range = the integer core on the input's own pattern for E ≤ 7 and E = 8; subnormal range = float32-rounded division, core, exact up-scaling), result is a format value, one of the two neighbours, |result − x| ≤ half a spacing (plus half a float32-subnormal ulp below the normal range: the double rounding), saturation incl. infinity, fixed points, idempotence and monotonicity on the whole magnitude range, odd symmetry and monotonicity for signed values, range properties = extremes of the value set. Correspondence: dense structured inputs for all 168 formats, twice (fresh process / after other library entry points), range properties as exact rationals (quick); all 2^32 patterns for E4M3/E5M2 (thorough).", "5/C13"),
+ "C14": ("proof", "Same bit-level model with the stochastic offset; theorems count the draws that round up exactly (sr_count), tie the count of the END-TO-END quantiser to the integer core on the input's own pattern (normal range), on the float32-rounded down-scaled pattern (below it) and for E = 8, hence exact probability = value of the discarded bits when all bits are used and half-unit bounds otherwise; always one of the two neighbours, representable inputs never move. Correspondence with torch.randint substituted and all draws enumerated (also through quantise_fwd/quantise_bwd, several formats in one graph, other input dtypes).", "5/C14"),
  "C15": ("proof", "Lean graph model of the quantisation backend and straight-through quantisers; theorems: only mapped nodes change, spliced call well-formed, lossless identity, format tuple round-trip. Correspondence: backend on hand-built FX graphs vs model, and through the real Dynamo path vs a hand-quantised reference.", "5/C15"),
  "C16": ("proof", "Lean graph model of unit_scaling_backend pass by pass against a declarative recipe on the true ancestor relation. Correspondence: backend on generated FX graphs vs model; real unit_scale() through Dynamo vs an interpreter executing the recipe with the real U.* functions.", "5/C16"),
- "C17": ("proof", "Lean list model of the backend chain (apply_transform, _order_backends, cached call); theorems: final order unit→quant→last for every chain, chains commute, original untouched, repeat stable. Correspondence on real modules for all chains of the family.", "5/C17"),
- "C18": ("proof", "Lean model of tracking as identity DOp with logging; theorems: transparent for outputs and cotangents, logged values are the node values / total adjoints, metric inequalities. Correspondence: bit-identical outputs/gradients with and without tracking; metrics vs statistics of independently captured tensors.", "5/C18"),
+ "C17": ("proof", "Lean list model of the backend chain (apply_transform, _order_backends incl. its AttributeError guard, cached call); theorems for chains of ANY length accepted by the code: final list is a permutation of the applied backends (each exactly once), the others keep application order, last unit-scaling backend precedes last quantisation backend; the property's finite family as instances; repeat-stable, intermediate calls irrelevant, original untouched. Correspondence on real modules for all chains of the family (through Dynamo) and for random chains of up to 7 transforms (backend lists incl. the error branch).", "5/C17"),
+ "C18": ("proof", "Lean model of tracking as identity DOp with logging; theorems: transparent for outputs and cotangents on chains; on DAGs of any size the table of logged gradients solves the adjoint equation of autograd's reverse sweep (seed plus every consumer's cotangent at every argument position) and is its only solution — i.e. the total gradient; metric inequalities. Correspondence: integer DAG programs through the model and the real tracking backend / track_scales, every logged statistic exact; bit-identical outputs/gradients with and without tracking; metrics vs statistics of independently captured tensors.", "5/C18"),
  "C19": ("proof", "Lean graph model of the three pruning helpers; theorems: exactly the documented nodes removed in order, no dangling reference, bypass at any argument depth, reachability among survivors preserved. Correspondence on tracked graphs of generated modules.", "5/C19"),
  "C20": ("other", "Partial: the library-side tracing branches of _ScaledGrad are modelled (fx forward agrees; fx backward is the forward scale; saved scale rounded to the input dtype); agreement with TorchDynamo/AOT autograd/Inductor is differential only (runtime not modelled).", "5/C20"),
 }
